@@ -79,6 +79,10 @@ def units(ctx, which):
                 us.append(("os", which, alg, spec, 2, m, e, ctx.seed, ctx.thorough))
             if m == 2 and (ctx.thorough or spec in (None, ("comp", 2), ("theta", 135))):
                 us.append(("os", which, alg, spec, 3, m, ctx.seed % 2, ctx.seed, ctx.thorough))
+    for d, depth_max in ((1, 2), (1, 3), (2, 2)):
+        for prob in ("mono", "front", "wave"):
+            for spec in ([("comp", 2), ("theta", 60), ("theta", 120)] if (d == 1 or ctx.thorough) else [("comp", 2)]):
+                us.append(("adref", which, d, depth_max, prob, spec, 0.1, 40 if d == 1 else 14))
     if which == "C03":
         for K in (3, 4):
             for part in range(8 if ctx.thorough else 4):
@@ -294,10 +298,84 @@ def run_auer_het(unit, res, only=None):
     res["samples"].append({"alg": "Auer-empirical", "K": K, "round": 50, "variance_alphabet": [0, 1, 4], "centre_grid": "7x7 step 0.5"})
 
 
+# ---------------------------------------------------------------------------------------------
+# VOGP_AD: every transition of the C18 explicit-state exploration through the VOGP reference
+
+
+def ad_reference_check(which, res, eps, spec):
+    W = cones.W_of(spec)
+    slack = eps * oracles.u_star(W)[0]
+
+    def check(before, alg, done, calls, bad):
+        ds1 = alg.design_space
+        n0 = len(before.design_space.points)
+        S0, P0 = set(before.S), set(before.P)
+        new_nodes = set(range(n0, len(ds1.points)))
+        refined = set()
+        if new_nodes:
+            # the refined node: the old active node that is no longer in S/P although it was neither discarded nor declared
+            k = min(new_nodes)
+            cell = ds1.cells[k]
+            for i in S0 | P0:
+                c = ds1.cells[i]
+                if all(c[q][0] <= cell[q][0] and cell[q][1] <= c[q][1] for q in range(len(c))) and i not in new_nodes:
+                    refined.add(i)
+        S1 = (set(alg.S) - new_nodes) | (refined & S0 if any(j in alg.S for j in new_nodes) else set())
+        P1 = (set(alg.P) - new_nodes) | (refined & P0 if any(j in alg.P for j in new_nodes) else set())
+        # a node refined out of S counts as still being a candidate at decision time
+        probe = copy.deepcopy(before)
+        probe.beta = probe.compute_beta()
+        probe.modeling()
+        pess_impl = set(probe.compute_pessimistic_set())
+        regions = stepmc.read_regions(probe, sorted(S0 | P0))
+        b = {"S": S0, "P": P0, "U": set()}
+        a = {"S": S1, "P": P1, "U": set()}
+        ref = reference.vogp_reference(W, eps, regions, b, a, slack, pess_impl, W.shape == (2, 2))
+        latch_on = bool(alg.enable_epsilon_covering)
+        res["outcomes"].append(f"VOGP_AD|{len(ref['D_obs'])}|{len(P1 - P0)}|{latch_on}")
+        if which == "C02":
+            for i, (want, got) in ref["discard"].items():
+                if want == 0:
+                    res["boundary_skipped"] += 1
+                    continue
+                res["nontrivial"] += 1
+                core.bump(res, f"VOGP_AD:discard_{'yes' if want > 0 else 'no'}")
+                if (want > 0) != bool(got):
+                    return bad("elimination", want > 0, bool(got), f"node {i}: reference elimination {want > 0}, real step {bool(got)} (S {sorted(S0)} -> {sorted(S1)}, P {sorted(P0)} -> {sorted(P1)})")
+        else:
+            if not P0 <= P1:
+                return bad("p-shrinks", "P grows", sorted(P0 - P1), "a member left P")
+            for i, (want, got) in ref["pareto"].items():
+                if not latch_on:
+                    want = -1  # declarations are gated by the depth latch
+                if want == 0:
+                    res["boundary_skipped"] += 1
+                    continue
+                res["nontrivial"] += 1
+                core.bump(res, f"VOGP_AD:pareto_{'yes' if want > 0 else 'no'}")
+                if (want > 0) != bool(got):
+                    return bad("p-entry", want > 0, bool(got), f"node {i}: reference P-entry {want > 0} (latch {latch_on}), real step {bool(got)} (S {sorted(S0)} -> {sorted(S1)}, P {sorted(P0)} -> {sorted(P1)})")
+        return None
+    return check
+
+
+def run_adref(unit, res, replay=None):
+    from checks import c18
+
+    _, which, d, depth_max, prob, spec, eps, horizon = unit
+    core.import_vopy()
+    c18.run_ad(("ad", d, depth_max, prob, spec, eps, horizon), res, replay=replay, extra_check=ad_reference_check(which, res, eps, spec), prop=which)
+    for v in res["violations"]:
+        v["case"] = {"mode": "adref", "unit": list(unit), "path": v["case"].get("path", [])}
+        v["key"]["alg"] = "VOGP_AD"
+
+
 def run_unit(unit):
     res = core.new_result()
     if unit[0] == "os":
         run_os(unit, res)
+    elif unit[0] == "adref":
+        run_adref(unit, res)
     else:
         run_auer_het(unit, res)
     return res
@@ -313,7 +391,11 @@ def _fix(u):
 def replay_case(case):
     res = core.new_result()
     u = _fix(case["unit"])
-    if case["mode"] == "os":
+    if case["mode"] == "adref":
+        uu = list(case["unit"])
+        uu[5] = tuple(tuple(tuple(r) for r in x) if isinstance(x, list) else x for x in uu[5])
+        run_adref(tuple(uu), res, replay=case["path"])
+    elif case["mode"] == "os":
         run_os(u, res, only=(list(case["combo"]), list(case["ridx"])))
     else:
         run_auer_het(u, res, only=(list(case["cidx"]), list(case["vs"])))
